@@ -351,12 +351,15 @@ register(Contract(
 # ------------------------------------------------------------------------------------------------ fix-level scheduler (C09 / C10)
 register(Contract(
     key=FSH + "__process_file_fix_next_level", properties=["C09", "C10", "C15"],
-    ghost=FIXG,
+    ghost=dict(FIXG, g_tok="Set[str]", g_line="Set[str]"),
     types={"plugins_by_fix_level": "Dict[int, List[str]]", "fixes_by_id": "Dict[str, FoundPlugin]", "fix_list": "List[str]", "collect_list": "List[str]",
            "trigger_set": "Set[str]", "new_minimum_fix_level": "Optional[int]"},
-    calls={"self.__process_file_fix_pass": FSH + "__process_file_fix_pass"},
+    calls={"self.__process_file_fix_pass": (FSH + "__process_file_fix_pass", ["g_tok = result[1]", "g_line = result[2]"])},
     requires=["next_file not in g_files", "user_file(next_file)"],
     ensures=[
+        # C09: every rule of a higher level that triggered - in the token pass OR in the line pass - is taken into account: the next
+        # level is at most its level, and processing continues
+        "forall_val(lambda x: implies(x in g_tok or x in g_line, result[0] and result[2] <= fixes_by_id[x].plugin_fix_level))",
         # C09: the scheduler only ever moves to a strictly higher fix level, and stops when nothing of a higher level triggered
         "implies(result[0], result[2] > minimum_fix_level)", "implies(not result[0], result[2] == minimum_fix_level)",
         # C10: the file is overwritten in this pass iff the pass reports a fix
@@ -369,7 +372,10 @@ register(Contract(
     # the assert / lookup on the triggered ids relies on the rule engine reporting only ids of the collect list (not proved here)
     raises=FIX_RAISES + [Raises("KeyError")],
     modifies=["*", "number_of_scan_failures", "g_files.$dict", "g_written.$dict"],
-    loops={1: Loop(invariant=["new_minimum_fix_level is None or new_minimum_fix_level > minimum_fix_level",
+    loops={1: Loop(index="idx", seq_name="trig_seq",
+                   invariant=["new_minimum_fix_level is None or new_minimum_fix_level > minimum_fix_level",
+                              "forall(lambda j: new_minimum_fix_level is not None and new_minimum_fix_level <= fixes_by_id[trig_seq[j]].plugin_fix_level, 0, idx)",
+                              "forall_val(lambda x: (x in trigger_set) == (x in g_tok or x in g_line))",
                               "forall_val(lambda x: (x in g_files) == old(x in g_files))",
                               "(next_file in g_written) == (old(next_file in g_written) or did_anything_get_fixed_this_time)",
                               "forall_val(lambda x: implies(x != next_file, (x in g_written) == old(x in g_written)))", MONO])},
